@@ -17,6 +17,7 @@ import RosuModel.Model.LifeWire
 import RosuModel.Model.FiniteWire
 import RosuModel.Model.PerfCalcWire
 import RosuModel.Model.SliderEventsWire
+import RosuModel.Model.ManiaPatternWire
 
 open Rosu
 
@@ -74,6 +75,11 @@ def handle (line : String) : String :=
   | ["OSLD", v, sm, tr, sl] => SliderEvents.handleOSLD v sm tr sl
   | ["JUICE", v, sm, tr, objs] => SliderEvents.handleJUICE v sm tr objs
   | ["ONER", mode, v, sm, tr, objs, take] => SliderEvents.handleONER mode v sm tr objs take
+  | ["MPH", total, rng, x, sample, ct, stair, cd, prev] => ManiaPattern.Wire.handleMPH total rng x sample ct stair cd prev
+  | ["MPP", total, rng, x, sample, ct, cd, prev, span, start, end_, seg, nodes] =>
+    ManiaPattern.Wire.handleMPP total rng x sample ct cd prev span start end_ seg nodes
+  | ["MPE", total, rng, sample, prev, hold, short] => ManiaPattern.Wire.handleMPE total rng sample prev hold short
+  | ["MPT", total, seed, cd, objs] => ManiaPattern.Wire.handleMPT total seed cd objs
   | _ => "bad-op"
 
 partial def loop (h : IO.FS.Stream) (out : IO.FS.Stream) : IO Unit := do
